@@ -1,7 +1,7 @@
 (** C02 — Character passwords are uniform over exactly the strings the recipe allows. *)
 From Spg.Base Require Import Prelude Utf8 Bytes.
 From Spg.Model Require Import Tables Rand GenM CharSets CharGen.
-From Spg.Proofs Require Import RandProofs SetProofs CountProofs GenProofs CharGenProofs.
+From Spg.Proofs Require Import RandProofs SetProofs CountProofs GenProofs CharGenProofs RawProofs LimitProofs.
 From Coq Require Import QArith.
 
 (** One candidate: every string of the requested length over the alphabet has
@@ -48,6 +48,33 @@ Theorem C02_first_step_unique : forall n x y (s : Q), (1 <= n)%N -> (n < W32)%N 
   (x == (NQ (rej n) / NQ W32) * x + s)%Q -> (y == (NQ (rej n) / NQ W32) * y + s)%Q -> (x == y)%Q.
 Proof. exact first_step_unique. Qed.
 
+(** From raw bytes to the ideal distribution, with no informal step.
+    (1) The number of m-word tapes of raw 32-bit words on which the tape
+    interpreter — the function that is differential-tested against the Go code —
+    returns a having consumed exactly those m words is given by a recursion whose
+    coefficients are the raw-word counts of C01. *)
+Theorem C02_tape_counts : forall (A : Type) (aeqb : A -> A -> bool) m (g : gen A) a,
+  rawcount32 aeqb g m a = NR32 aeqb m g a.
+Proof. exact @rawcount_NR32. Qed.
+(** (2) The fraction of uniform raw tapes on which the interpreter has returned a
+    within the first M words never exceeds the ideal probability and is within
+    u (depth g) M of it, where u d M is the chance of fewer than d heads in M fair
+    coin flips ... *)
+Theorem C02_frequency_sandwich : forall (A : Type) (aeqb : A -> A -> bool) (a : A) M (g : gen A), picks_ok g ->
+  (freq32 aeqb a M g <= ideal aeqb a g /\ ideal aeqb a g - freq32 aeqb a M g <= u (depth g) M)%Q.
+Proof. exact @frequency_sandwich. Qed.
+Theorem C02_frequency_is_tape_count : forall (A : Type) (aeqb : A -> A -> bool) (a : A) m (g : gen A), picks_ok g ->
+  (mass32 aeqb a m g * Qpow (NQ W32) m == NQ (rawcount32 aeqb g m a))%Q.
+Proof. exact @mass32_is_tape_count. Qed.
+(** (3) ... which tends to 0: the ideal probability IS the limit of the frequencies over actual byte tapes. *)
+Theorem C02_frequency_converges : forall (A : Type) (aeqb : A -> A -> bool) (a : A) (g : gen A), picks_ok g ->
+  forall eps, (0 < eps)%Q ->
+  exists M0, forall M, (M0 <= M)%nat -> (ideal aeqb a g - eps <= freq32 aeqb a M g /\ freq32 aeqb a M g <= ideal aeqb a g)%Q.
+Proof. exact @frequency_converges. Qed.
+(** every character generator has well-formed picks (alphabets below 2^32) *)
+Theorem C02_generator_picks_ok : forall b r, small_alphabet r -> picks_ok (char_generate b r).
+Proof. exact char_generate_picks_ok. Qed.
+
 (** The alphabet order forced by the verif hook loses no generality: the
     distribution over strings is the same for any duplicate-free ordering,
     because it is (1/a)^L on exactly the strings over the same set. *)
@@ -76,3 +103,8 @@ Print Assumptions C02_support.
 Print Assumptions C02_raw_word_first_step.
 Print Assumptions C02_first_step_unique.
 Print Assumptions C02_order_irrelevant.
+Print Assumptions C02_tape_counts.
+Print Assumptions C02_frequency_sandwich.
+Print Assumptions C02_frequency_is_tape_count.
+Print Assumptions C02_frequency_converges.
+Print Assumptions C02_generator_picks_ok.
